@@ -571,7 +571,13 @@ def install_builtins(I):
             return list(range(*a))
         raise Unsupported("range with symbolic bound (needs a loop invariant)")
     bi["range"] = B("range", b_range)
-    bi["enumerate"] = B("enumerate", lambda I, x, start=0: [(i + start, v) for i, v in enumerate(iterate(I, x))])
+    def b_enumerate(I, x, start=0):
+        if isinstance(x, sx.Obj) and "__symbolic_enumerate__" in x.attrs:
+            # havoc iteration: ONE iteration for a symbolic index (loop body verified for every index)
+            idx, item = x.attrs["__symbolic_enumerate__"]
+            return [(I.binop("Add", idx, start) if start != 0 else idx, item)]
+        return [(i + start, v) for i, v in enumerate(iterate(I, x))]
+    bi["enumerate"] = B("enumerate", b_enumerate)
     bi["zip"] = B("zip", lambda I, *xs: [tuple(t) for t in zip(*[iterate(I, x) for x in xs])])
     def b_list(I, x=()):
         it = iterate(I, x)
